@@ -125,4 +125,9 @@ CHECKS = {
         technique='Hypothesis-generated pipelines submitted through the real ServiceBackend._async_run against a recording fake batch client; harness-owned token/uid draws make path collisions searchable; known defects excluded by construction in guarded shards',
         text='~16k pipelines per quick run: producer upload location == consumer download location, consumer is a child of the producer, every reference replaced by its quoted local path and nothing else, distinct resources have distinct paths.',
         note='ServiceBackend is instantiated without network (fake client/fs); five known findings are listed (four unguarded shards re-find them, twelve guarded shards search behind them); one defect (job token dedup) was fixed.'),
+    'C30': dict(
+        level='exploration',
+        technique='Hypothesis-generated event histories (pushes, reviews, labels, statuses, batch completions, target moves, delayed delivery) against a ground-truth fake GitHub/Batch with a monitor at the instant of PUT .../merge',
+        text='6.7k histories per quick run (~75% reach a merge attempt) drive the real WatchedBranch/PR update, heal and merge code; every merge is judged against ground truth: approved, no blocking label, required checks green on the current head, test batch green for (head, current target), one merge per target sha.',
+        note='Trusts vlib/fakegithub.py (REST/GraphQL/Batch/db fakes, no branch protection) and six replaced module globals of ci.github (shell/build config); a clause is strict only for facts CI has had the chance to read. Two defects found were fixed.'),
 }
